@@ -5,6 +5,7 @@ CONSTANTS
   MaxLog = 4
   NonCmdKinds = {}
   WarmStart = TRUE
+  MaxRestarts = 0
   UpgradeStrong = FALSE
   VerifyQuorum = TRUE
   RecheckTerm = TRUE
